@@ -55,7 +55,7 @@ Proof. exact code_valid_packet. Qed.
 Print Assumptions C03_translated_message_check_refines_the_model.
 
 (* Tie T2, views. The variable-length view accessors themselves - getData of CAN / CAN-FD, LIN and Ethernet, getSamplesCount / getData of the
-   analog payload, getStreamIdsCount / getStreamIds / getVendorDataLength of the interface status -, re-translated from /repo on this run
+   analog payload, getStreamIdsCount / getStreamIds / getVendorDataLength / getVendorData of the interface status -, re-translated from /repo on this run
    as member functions over the payload's own byte vector: on EVERY payload its validator accepts they read in bounds and return the
    offset (-1 = nullptr) and length that lie inside the payload. view_analog_model / view_if_model (CodeViews.v) identify these values
    with the elements of the model's view_analog / view_if that the first theorem speaks about. *)
@@ -85,10 +85,13 @@ Theorem C03_translated_interface_views : forall d, bytes_ok d -> zlen d < 2 ^ 64
   (forall c, code_InterfacePayload_getStreamIdsCount = Some c -> ceval gen_reads d (penv d) c = Ok (if_cnt d)) /\
   (forall c, code_InterfacePayload_getStreamIds = Some c ->
      ceval gen_reads d (penv d) c = Ok (if if_cnt d =? 0 then -1 else 38) /\ 38 + if_cnt d <= zlen d) /\
-  (forall c, code_InterfacePayload_getVendorDataLength = Some c -> ceval gen_reads d (penv d) c = Ok (u16 d (38 + if_cntv d))).
+  (forall c, code_InterfacePayload_getVendorDataLength = Some c -> ceval gen_reads d (penv d) c = Ok (u16 d (38 + if_cntv d))) /\
+  (forall c, code_InterfacePayload_getVendorData = Some c ->
+     ceval gen_reads d (penv d) c = Ok (if u16 d (38 + if_cntv d) =? 0 then -1 else 38 + if_cntv d + 2)).
 Proof.
-  intros d Hd Hn Hv. split; [|split]; intros c Hc;
-    first [ apply (view_if_count d c Hd Hn Hv Hc) | apply (view_if_ids d c Hd Hn Hv Hc) | apply (view_if_vendor_len d c Hd Hn Hv Hc) ].
+  intros d Hd Hn Hv. split; [|split; [|split]]; intros c Hc;
+    first [ apply (view_if_count d c Hd Hn Hv Hc) | apply (view_if_ids d c Hd Hn Hv Hc) | apply (view_if_vendor_len d c Hd Hn Hv Hc)
+          | apply (view_if_vendor_data d c Hd Hn Hv Hc) ].
 Qed.
 Print Assumptions C03_translated_interface_views.
 
@@ -96,7 +99,7 @@ Theorem C03_every_view_accessor_translated :
   lost_among ["ASAM::CMP::LinPayload::getData"; "ASAM::CMP::CanPayloadBase::getData"; "ASAM::CMP::EthernetPayload::getData";
               "ASAM::CMP::AnalogPayload::getSamplesCount"; "ASAM::CMP::AnalogPayload::getData";
               "ASAM::CMP::InterfacePayload::getStreamIdsCount"; "ASAM::CMP::InterfacePayload::getStreamIds";
-              "ASAM::CMP::InterfacePayload::getVendorDataLength"]%string = nil.
+              "ASAM::CMP::InterfacePayload::getVendorDataLength"; "ASAM::CMP::InterfacePayload::getVendorData"]%string = nil.
 Proof. vm_compute. reflexivity. Qed.
 
 (* every validator that exists in the sources was inside the translatable fragment on this run (a function that was removed is `None`
